@@ -14,9 +14,19 @@
   every cached memo is finalised (moved to `St.final`).  (salsa decides "outermost" per cycle via
   the transitive cycle-head sets and can therefore finish an independent inner cycle earlier;
   values do not depend on that.)  Cycle-head sets are kept only to decide which
-  `FallbackImmediate` queries take their fallback value.  Metadata convergence (durability / changed_at / untracked) is not
-  modelled: only values decide convergence.  That this abstraction is faithful on *values* and
-  *panic classes* is established by the line-protocol correspondence, not by proof.
+  `FallbackImmediate` queries take their fallback value; they are resolved eagerly
+  (`substHeads`: a head that leaves the stack is replaced by the heads it depends on), which is
+  what `collect_all_cycle_heads` computes lazily.  Metadata convergence (durability /
+  changed_at / untracked) is not modelled: only values decide convergence.  Incremental reuse
+  across revisions is not modelled either: a write drops every memo (`Db.newRevision`).  That
+  this abstraction is faithful on *values* and *panic classes* is established by the
+  line-protocol correspondence, not by proof.
+
+  Proofs about this file (all core Lean): `Proofs/CycleLfp.lean` (`evalExpr_mono`: `Mono` is
+  automatic for the body language; `lfp_fix`: the fuel `8 * n + 1` of `lfp` suffices;
+  `lfpL_getD`: the memoised `lfpL` of the driver = `lfp`), `Proofs/CycleSound.lean` (every
+  memo = `lfp`), `Proofs/CycleFb.lean` (fallback programs), `Proofs/CycleFuel.lean`
+  (`outOfFuel` is unreachable for well-formed programs).
 
   Values are 8-bit sets represented as `Nat < 256` (`|||` union, `&&&` intersection, `0` = ⊥).
   Core Lean only.
@@ -131,7 +141,9 @@ def fbReference (P : Prog) (env : Nat → Nat) : Nat → Nat := fbRef P env (P.n
 
 /-! ### Executable (memoised) versions of the references, used by the driver.
    `kleene`/`reach`/`fbRef` above are the specifications (functions, exponential to run);
-   the list versions compute the same tables round by round. -/
+   the list versions compute the same tables round by round (`lfpL` is proved equal to `lfp`
+   in `Proofs/CycleLfp.lean`; `onCycleL`/`fbReferenceL` are only tested against the
+   specifications). -/
 
 def kleeneL (P : Prog) (env : Nat → Nat) : Nat → List Nat
   | 0 => List.replicate P.n 0
